@@ -101,8 +101,9 @@ class StaticSimLoader(BaseLoader):
     """Custom loader over a static, optionally namespaced store; its async path
     suspends for seeded latencies.  ``store``: {(ns, name): source}."""
 
-    def __init__(self, store, loop_ref, style="fs-like", matter=False, namespaced=True):
+    def __init__(self, store, loop_ref, style="fs-like", matter=False, namespaced=True, faults=None):
         super().__init__()
+        self.faults = dict(faults or {})   # name -> exception kind raised instead of answering (both paths alike)
         self.store = store
         self.loop_ref = loop_ref      # one-element list holding the current SimLoop (or None)
         self.style = style
@@ -124,6 +125,8 @@ class StaticSimLoader(BaseLoader):
 
     def _lookup(self, name, context, kwargs, is_async):
         self.loads += 1
+        if name in self.faults:
+            raise make_fault(self.faults[name], name)
         ns = self._ns(context, kwargs)
         key = (ns, name) if (ns, name) in self.store else ("", name)
         try:
@@ -159,6 +162,18 @@ class StaticSimLoader(BaseLoader):
 
 def _true():
     return True
+
+
+def make_fault(kind, name):
+    """The exception a faulty backing store answers with."""
+    if kind == "OSError":
+        return OSError(5, "injected EIO for %s" % name)
+    if kind == "UnicodeDecodeError":
+        return UnicodeDecodeError("utf-8", b"\xff", 0, 1, "injected")
+    if kind == "LiquidSyntaxError":
+        from liquid.exceptions import LiquidSyntaxError
+        return LiquidSyntaxError("injected", token=None)
+    return ValueError("injected for %s" % name)
 
 
 class SimFilter:
